@@ -176,6 +176,40 @@ impl Prop for SetDoy {
                 ts.div_euclid(86_400) + cal::DAYS_TO_1970
             }
         });
+        // DateTime carrying an offset: the N-th day of the *local* year, local time of day kept
+        {
+            let off = ((c.day.rem_euclid(172_799)) as i32 - 86_399) / 7 * 7 % 86_400; // a deterministic offset per case
+            let utc = c.day as i128 * 86_400_000_000_000 + (c.n as i128 % 86_400) * 1_000_000_000;
+            if c.day > cal::MIN_DAY + 3 && c.day < cal::MAX_DAY - 3 {
+                let local = utc + off as i128 * 1_000_000_000;
+                let want_local = crate::props::c09::model(local, &crate::props::c09::Op::Set { field: 3, v: c.n as i64 });
+                let in_margin = want_local.map(|w| {
+                    let d = w.div_euclid(86_400_000_000_000) as i64;
+                    d >= cal::MIN_DAY + 2 && d <= cal::MAX_DAY - 2
+                });
+                if in_margin != Some(false) {
+                    let r = catch(|| mk_dt_off(utc, off).set_day_of_year(c.n).map(|d| rd_dt(&d)));
+                    if crate::model::tl::fields(local).year != crate::model::tl::fields(utc).year {
+                        cx.nt("local_year!=utc_year");
+                    }
+                    match (want_local, r) {
+                        (_, Err(p)) => return fail("c02.set_doy_panic", "set_day_of_year on a DateTime with offset returns", p.short()),
+                        (Some(w), Ok(Ok(i))) => {
+                            if i != w - off as i128 * 1_000_000_000 {
+                                return fail(
+                                    "c02.set_doy_offset_wrong_day",
+                                    format!("set_day_of_year({}) on {} [offset {}] = local {}", c.n, fmt_instant(utc), off, fmt_instant(w)),
+                                    format!("local {}", fmt_instant(i + off as i128 * 1_000_000_000)),
+                                );
+                            }
+                        }
+                        (Some(w), Ok(Err(e))) => return fail("c02.set_doy_offset_rejects_valid", format!("set_day_of_year({}) on {} [offset {}] = local {}", c.n, fmt_instant(utc), off, fmt_instant(w)), format!("Err({})", e)),
+                        (None, Ok(Ok(i))) => return fail("c02.set_doy_offset_accepts_invalid", format!("set_day_of_year({}) on {} [offset {}] refused (local year {} has no such day)", c.n, fmt_instant(utc), off, crate::model::tl::fields(local).year), format!("Ok({})", fmt_instant(i))),
+                        (None, Ok(Err(_))) => {}
+                    }
+                }
+            }
+        }
         for (api, r) in [("Date", r1), ("DateTime", r2)] {
             match r {
                 Ok(d) => {
